@@ -2,11 +2,14 @@
   Properties/C02.lean — SPIKE-profile equals the SPIKE-distance definition (plain, RI, adaptive).
   Spec: Spec/Spike.lean (validated against the model on every pair of subsets of a 6-point grid ×
   MRTS × RI and 5 000 random pairs: identical outside the class of known finding F9).
-  This file holds the clauses proved so far; the scan theorem `spikeProfile_eq_spec_partial`
-  (work package B4) is added under Proofs/SpikeScan.lean when merged.
+  The scan theorem `profile_is_definition_partial` (Proofs/SpikeScan.lean, work package B4) holds for
+  every pair of valid trains except the class of known finding F9 (a train that is exactly one
+  spike located on `t_start`); the unrestricted statement is kept visible and proved FALSE
+  (`full_statement_fails`).
 -/
 import PySpikeVerif.Spec.Spike
 import PySpikeVerif.Proofs.SpikeLaws
+import PySpikeVerif.Proofs.SpikeScan
 
 namespace PySpike.C02
 open PySpike
@@ -51,5 +54,73 @@ theorem spec_example :
 theorem F9_witness :
     let p := spikeProfile [0] [0, 4] 0 6 0 false
     (p.2.1, p.2.2) ≠ spikeSpecProfile [0] [0, 4] 0 6 0 false p.1 := by decide +kernel
+
+/-! ### the scan theorems (Proofs/SpikeScan.lean, work package B4) — all valid trains, every MRTS, both RI -/
+
+/-- the SPIKE-profile is piecewise linear on the same breakpoints as the ISI-profile (all inputs) -/
+theorem same_breakpoints_as_isi (t1 t2 : List Q) (ts te m : Q) (ri : Bool) :
+    (spikeProfile t1 t2 ts te m ri).1 = (isiProfile t1 t2 ts te 0).1 := spikeProfile_breaks t1 t2 ts te m ri
+
+theorem array_lengths (t1 t2 : List Q) (ts te m : Q) (ri : Bool) :
+    (spikeProfile t1 t2 ts te m ri).2.1.length + 1 = (spikeProfile t1 t2 ts te m ri).1.length ∧
+    (spikeProfile t1 t2 ts te m ri).2.2.length = (spikeProfile t1 t2 ts te m ri).2.1.length :=
+  spikeProfile_lengths t1 t2 ts te m ri
+
+/-- the incremental nearest-spike search with restart index equals the global minimum over the
+    other train with its two auxiliary spikes -/
+theorem nearest_spike_search_is_global_minimum (x a0 a1 : Q) (o c r : List Q) (hs : o.Pairwise (· < ·))
+    (h0 : ∀ y ∈ o, a0 ≤ y) (h1 : ∀ y ∈ o, y ≤ a1) (ho : o = c ++ r) (hc : ∀ y ∈ c, y ≤ x) :
+    minDist x (fromIdx c.getLast? r) a0 a1 = dtTo x (a0 :: (o ++ [a1])) :=
+  getMinDist_eq_dtTo x a0 a1 o c r hs h0 h1 ho hc
+
+/-- **the SPIKE-profile equals the documented instantaneous dissimilarity**: start value of every
+    piece = `S(x_k⁺)`, end value = `S(x_{k+1}⁻)`, with `S` the cursor-free definition `spikeSpec`
+    (previous/following spike distances to the nearest spike of the other train interpolated
+    linearly, constant before the first / after the last spike, combined by `dist_at_t`) — for all
+    valid trains outside the F9 class -/
+theorem profile_is_definition_partial (t1 t2 : List Q) (ts te m : Q) (ri : Bool)
+    (h1 : ValidNE t1 ts te) (h2 : ValidNE t2 ts te) (hlt : ts < te)
+    (hn1 : ¬ OneSpikeOnStart t1 ts) (hn2 : ¬ OneSpikeOnStart t2 ts) :
+    ((spikeProfile t1 t2 ts te m ri).2.1, (spikeProfile t1 t2 ts te m ri).2.2)
+      = spikeSpecProfile t1 t2 ts te m ri (spikeProfile t1 t2 ts te m ri).1 :=
+  spikeProfile_eq_spec_partial t1 t2 ts te m ri h1 h2 hlt hn1 hn2
+
+/-- … at EVERY time `t` of the recording (not only at the breakpoints): the linear interpolation of
+    the profile inside a piece equals the definition, for the plain and the RI variant -/
+theorem value_at_every_time_partial (t1 t2 : List Q) (ts te m : Q) (ri : Bool)
+    (h1 : ValidNE t1 ts te) (h2 : ValidNE t2 ts te) (hlt : ts < te)
+    (hn1 : ¬ OneSpikeOnStart t1 ts) (hn2 : ¬ OneSpikeOnStart t2 ts)
+    (k : Nat) (hk : k + 1 < (spikeProfile t1 t2 ts te m ri).1.length) (t : Q)
+    (hxt : nth (spikeProfile t1 t2 ts te m ri).1 k ≤ t)
+    (htx : t < nth (spikeProfile t1 t2 ts te m ri).1 (k + 1)) :
+    (Pwl.pieceAt ⟨(spikeProfile t1 t2 ts te m ri).1, (spikeProfile t1 t2 ts te m ri).2.1,
+        (spikeProfile t1 t2 ts te m ri).2.2⟩ k).at t
+      = spikeSpec t1 t2 ts te m ri t true :=
+  spike_affine_on_piece t1 t2 ts te m ri h1 h2 hlt hn1 hn2 k hk t hxt htx
+
+/-- the profile is 0 on both sides of every instant where both trains spike (all valid trains,
+    F9 class included) -/
+theorem zero_where_both_spike (t1 t2 : List Q) (ts te m : Q) (ri : Bool)
+    (h1 : ValidNE t1 ts te) (h2 : ValidNE t2 ts te) (hlt : ts < te) :
+    (∀ p ∈ (spikeProfile t1 t2 ts te m ri).1.zip (spikeProfile t1 t2 ts te m ri).2.1,
+      p.1 ∈ t1 → p.1 ∈ t2 → p.2 = 0) ∧
+    (∀ p ∈ (spikeProfile t1 t2 ts te m ri).1.tail.zip (spikeProfile t1 t2 ts te m ri).2.2,
+      p.1 ∈ t1 → p.1 ∈ t2 → p.2 = 0) := spike_tie_zero t1 t2 ts te m ri h1 h2 hlt
+
+/-- all profile values are non-negative -/
+theorem values_nonneg_partial (t1 t2 : List Q) (ts te m : Q) (ri : Bool)
+    (h1 : ValidNE t1 ts te) (h2 : ValidNE t2 ts te) (hlt : ts < te)
+    (hn1 : ¬ OneSpikeOnStart t1 ts) (hn2 : ¬ OneSpikeOnStart t2 ts) :
+    (∀ v ∈ (spikeProfile t1 t2 ts te m ri).2.1, 0 ≤ v) ∧
+    (∀ v ∈ (spikeProfile t1 t2 ts te m ri).2.2, 0 ≤ v) :=
+  B4_spikeProfile_nonneg t1 t2 ts te m ri h1 h2 hlt hn1 hn2
+
+/-- the FULL statement (without excluding the F9 class) is false of the code as it is -/
+theorem full_statement_fails :
+    ¬ ∀ (t1 t2 : List Q) (ts te m : Q) (ri : Bool),
+      ValidNE t1 ts te → ValidNE t2 ts te → ts < te →
+      ((spikeProfile t1 t2 ts te m ri).2.1, (spikeProfile t1 t2 ts te m ri).2.2)
+        = spikeSpecProfile t1 t2 ts te m ri (spikeProfile t1 t2 ts te m ri).1 :=
+  spike_full_statement_fails
 
 end PySpike.C02
